@@ -145,3 +145,35 @@ PLAN["C19"] = dict(
     quick=dict(proptest={"rel": (12, 4000), "dbg": (4, 1500)}),
     thorough=dict(proptest={"rel": (16, 80000), "dbg": (8, 20000)}),
 )
+
+AUTO_GEN = ("generation: tapes decoded either (35%) into a regex program that is compiled, or (65%) into a semantic DFA over 1-4 landmarks' atoms (1-5 base states whose rows are runs of consecutive atoms, all-final / none-final variants), "
+            "0-3 cloned (equivalent) states with incoming edges partly redirected, 0-3 states nobody points to, turned into AutomatonBuilder calls with permuted labels, shuffled call order, runs split into adjacent labels, and per state either no default (labels cover everything) or a declared default that some runs are left to")
+AUTO_ASSUME = COMMON_ASSUMPTIONS + [
+    "automata are observed through next() on the common refinement of the atoms and of every state's own ranges (both ends of every range and the characters just outside, 0 and 0x2FFFF)",
+    "state ranges are read through CharSet::pick()/size() and cross-checked with next(); characters strictly inside a range are assumed to behave like its ends (class_of_char is checked in C11)",
+]
+
+PLAN["C04"] = dict(
+    rule=AUTO_GEN + "; the same source is built twice (A kept, B minimised). Non-trivial = A has two equivalent states (Moore refinement through next() finds fewer classes than states) and >= 2 classes remain; distinct = digest of the source.",
+    oracle="independent Moore partition refinement written in the harness, run through next() only: L(B) = L(A) = reference language by exact product (R5); refinement of B yields B.num_states() classes (no two equivalent states); when every state of A is reachable B.num_states() equals the size of the minimal complete reference DFA (Myhill-Nerode index); a second minimize changes nothing; initial state, is_final, num_final_states, final_states consistent",
+    assumptions=AUTO_ASSUME,
+    quick=dict(proptest={"rel": (12, 12000), "dbg": (4, 4000)}),
+    thorough=dict(proptest={"rel": (16, 250000), "dbg": (8, 60000)}),
+)
+
+PLAN["C13"] = dict(
+    rule="generation: a complete deterministic specification produced as for C04 (permuted labels, shuffled calls, split runs, defaults only where needed), then 0-2 mutations: drop a default, drop a transition, add an overlapping transition with a different / the same target, declare a default where everything is covered, shrink a label by one character, redirect a transition to a label that is never defined. "
+         "Non-trivial = >= 2 labels and (the specification has a conflict or an incomplete state, or some state has >= 2 transitions and no default); distinct = digest of the call sequence.",
+    oracle="the specification's own meaning by linear scan per state: conflict (a character in two labels with different targets), incomplete (a character with neither label nor declared default); Ok => neither holds anywhere; a specification with pairwise disjoint labels, complete, defaults declared only where a gap is left => must be Ok; for Ok: lock-step walk from initial_state() and the label given to new builds a label<->state bijection under which is_final = marked and, for every break-point character, the successor is the explicit transition covering it, else the declared default; num_states = labels mentioned, num_final_states = labels marked",
+    assumptions=COMMON_ASSUMPTIONS + ["error variants and state ids are not checked; same-target overlaps and a default declared although everything is covered may be accepted or rejected (the statement allows both)"],
+    quick=dict(proptest={"rel": (12, 15000), "dbg": (4, 5000)}),
+    thorough=dict(proptest={"rel": (16, 400000), "dbg": (8, 100000)}),
+)
+
+PLAN["C14"] = dict(
+    rule=AUTO_GEN + "; built twice (A kept, B pruned). Non-trivial = at least one unreachable state is removed, or the automaton has >= 3 states of which >= 2 have both explicit transitions and a default (sparse rows that share the compact table); distinct = digest of the source.",
+    oracle="reference reachability by BFS through next(); after remove_unreachable_states: num_states = |reach|, a lock-step walk from the initial states is a bijection reach(A) <-> states(B) preserving finality and every transition, language unchanged (product with the reference DFA); combined_char_partition: all break-point characters that fall in one class have identical next() in every state; pick_alphabet hits every class exactly once; compile_successors().eval(id, i) = next(state, alphabet[i]).id for EVERY cell; edges(s) = one pair per range plus one for the default, each equal to next/class_next; num_states/num_final_states/final_states/ids consistent with states()",
+    assumptions=AUTO_ASSUME,
+    quick=dict(proptest={"rel": (12, 10000), "dbg": (4, 3000)}),
+    thorough=dict(proptest={"rel": (16, 200000), "dbg": (8, 50000)}),
+)
